@@ -105,6 +105,15 @@ func (fx *fnExec) execCall(dst *ssa.Call, c *ssa.CallCommon, where string) {
 		fx.runCallHooks(name, args, fx.resultOf(dst), env, where)
 		return
 	}
+	// a helper extracted since the lock was written: executed in place (inline.go)
+	if callee != nil && !c.IsInvoke() && fx.inlining < 3 && fx.v.inlineable(callee, 0) {
+		if _, isStatic := c.Value.(*ssa.Function); isStatic {
+			fx.inlineCall(dst, callee, args, where)
+			fx.curCall = c
+			fx.runCallHooks(name, args, fx.resultOf(dst), env, where)
+			return
+		}
+	}
 	// unknown callee: havoc
 	fx.noteUnspec(name)
 	ms := newModSet()
@@ -206,6 +215,12 @@ func (fx *fnExec) applyContract(dst *ssa.Call, ctr *FuncContract, name string, c
 		}
 	}
 	pn := paramNames(callee, sig, c.IsInvoke())
+	if callee != nil {
+		// a parameter renamed since the contracts were written keeps the name the contracts use
+		for i := range pn {
+			pn[i] = fx.v.contractName(callee, pn[i])
+		}
+	}
 	// closures: bindings come first in callee.Params? No: FreeVars are separate. Params align with args.
 	for i, a := range args {
 		if i < len(pn) {
@@ -229,13 +244,14 @@ func (fx *fnExec) applyContract(dst *ssa.Call, ctr *FuncContract, name string, c
 	if callee != nil && len(callee.FreeVars) > 0 {
 		if fv, ok := fx.val(c.Value).(FnV); ok && fv.Fn == callee && len(fv.Bindings) == len(callee.FreeVars) {
 			for i, b := range fv.Bindings {
-				if _, taken := env.names[callee.FreeVars[i].Name()]; taken {
+				fvn := fx.v.contractName(callee, callee.FreeVars[i].Name())
+				if _, taken := env.names[fvn]; taken {
 					continue
 				}
 				if ad, isAd := b.(Ad); isAd {
-					env.names[callee.FreeVars[i].Name()] = fx.load(ad)
+					env.names[fvn] = fx.load(ad)
 				} else {
-					env.names[callee.FreeVars[i].Name()] = b
+					env.names[fvn] = b
 				}
 			}
 		}
@@ -706,7 +722,7 @@ func (fx *fnExec) tryEvalCalleeClause(cl Clause, env *SpecEnv, callee *ssa.Funct
 			if ve, isVE := r.(vcError); isVE && strings.Contains(ve.msg, "unknown identifier") && callee != nil {
 				// only names that ARE local variables of the callee are excused; anything else is a specification error
 				m := regexp.MustCompile(`unknown identifier "([^"]+)"`).FindStringSubmatch(ve.msg)
-				if m != nil && (calleeHasLocal(callee, m[1]) || ctrHasGhost(ctr, m[1])) {
+				if m != nil && (fx.v.calleeHasLocal(callee, m[1]) || ctrHasGhost(ctr, m[1])) {
 					ok = false
 					return
 				}
@@ -726,7 +742,7 @@ func (fx *fnExec) tryEvalCalleePre(cl Clause, env *SpecEnv, callee *ssa.Function
 				m := regexp.MustCompile(`unknown identifier "([^"]+)"`).FindStringSubmatch(ve.msg)
 				if m != nil {
 					for _, f := range callee.FreeVars {
-						if f.Name() == m[1] {
+						if f.Name() == m[1] || fx.v.contractName(callee, f.Name()) == m[1] {
 							ok = false
 							return
 						}
@@ -739,13 +755,13 @@ func (fx *fnExec) tryEvalCalleePre(cl Clause, env *SpecEnv, callee *ssa.Function
 	return fx.evalClause(cl, env), true
 }
 
-func calleeHasLocal(fn *ssa.Function, name string) bool {
+func (v *Verifier) calleeHasLocal(fn *ssa.Function, name string) bool {
 	if i := strings.Index(name, "@"); i > 0 {
 		name = name[:i]
 	}
 	for _, b := range fn.Blocks {
 		for _, in := range b.Instrs {
-			if a, ok := in.(*ssa.Alloc); ok && a.Comment == name {
+			if a, ok := in.(*ssa.Alloc); ok && (a.Comment == name || v.contractName(fn, a.Comment) == name) {
 				return true
 			}
 		}
